@@ -660,6 +660,8 @@ def run(res, ctx):
                     pcs.append((n, [g1, g2]))
     check_pages(res, ctx, pcs)
     check_iter_raw(res, ctx, rng, 500 if q else 5000)
+    import props.c20_cli as c20_cli
+    c20_cli.run(res, ctx, rng, ctx["stats"])
     finish(res, ctx)
 
 
